@@ -179,9 +179,17 @@ def scenario(chk, hname, auto, skip, stale=False):
         if stale is not True:
             model.update()
         if stale == "twice":
-            # an earlier simulate() with another seed: the measured call is determined by its own seed and the ancestors it draws itself
+            # an earlier simulate() with another seed, made while the last variable held a value of ANOTHER SHAPE: the measured call is determined
+            # by its own seed, the ancestors it draws itself and the shapes of the values current when it is made
             model.update()
+            leaf = model.vars[order[-1]]
+            leaf.value = jnp.zeros(tuple(d_ + 1 for d_ in np.shape(st[leaf.value_node.name])) or (2,))
             model.simulate(jax.random.fold_in(seed, 5), skip=skip)
+            for k in strong:
+                model.nodes[k]._value = st[k]
+            for n in model.nodes.values():
+                n._outdated = n.name not in strong
+            model.update()
         model.simulate(seed, skip=skip)
         model.update()
         out = {k: v.value for k, v in model.state.items() if v.value is not None}
